@@ -144,7 +144,7 @@ let () =
        let line = input_line ic in
        if line <> "" && line.[0] <> '#' then begin
          Buffer.clear b;
-         (try print_out b (M.drv_run (parse_case line))
+         (try print_out b (M.drv_main (parse_case line))
           with Stack_overflow -> (Buffer.clear b; Buffer.add_string b "MODEL-STACKOVERFLOW")
              | Failure m -> (Buffer.clear b; Buffer.add_string b ("MODEL-FAIL " ^ m))
              | Not_found | Invalid_argument _ -> (Buffer.clear b; Buffer.add_string b "MODEL-EXC"));
